@@ -132,7 +132,19 @@ def one_case(ctx, sub, r, cid, max_hist, nq, call, agree, qcache, SC, S,
     for label, q in Q:
         ok, v = call(q, obj)
         prev[label] = (ok, snapshot(v))
-    muts = sub.mutators()
+    def _clear(o, mm, rr):
+        # the documented ways of dropping caches by hand: a state change of
+        # the caches only, every answer must stay what it is
+        did = False
+        for nm in ("cache_clear", "clear_cache"):
+            f = getattr(o, nm, None)
+            if callable(f):
+                f()
+                did = True
+        if not did:
+            raise S.Skip()
+        return mm
+    muts = list(sub.mutators()) + [("cache_clear", _clear)]
     hist = []
     L = int(r.integers(1, max_hist + 1))
     applied = []          # (mutator index, seed of its private rng)
